@@ -272,6 +272,12 @@ def add_component(W, d, di, spec):
     kind, name, seed = spec[0], spec[1], spec[2]
     if kind in ("f", "i", "c", "t"):
         d.add_component(values(kind, seed, d.shape), name)
+    elif kind == "C":   # categorical with an explicit category list: its own order, one unused category
+        vals = values("c", seed, d.shape)
+        cats = sorted(set(vals.ravel().tolist()), reverse=True) + ["unused"]
+        if seed % 2:
+            cats = cats[::-1]
+        d.add_component(CategoricalComponent(vals, categories=np.array(cats)), name)
     elif kind == "u":
         d.add_component(Component(values("f", seed, d.shape), units=["m", "km", "deg", "s"][seed % 4]), name)
     elif kind == "d":   # derived through ComponentLink arithmetic (BinaryComponentLink)
@@ -301,7 +307,9 @@ def add_component(W, d, di, spec):
         a = nums[seed % len(nums)]
         b = nums[(seed // 3) % len(nums)]
         if seed % 2:
-            d.add_component_link(ComponentLink([a], ComponentID(name), using=fn_double, inverse=fn_half))
+            # (no inverse: an inverse would open a second derivation route to `a` once `name` is linked
+            #  to another dataset, and which route the link manager takes depends on set order — C03's subject)
+            d.add_component_link(ComponentLink([a], ComponentID(name), using=fn_double))
         else:
             d.add_component_link(ComponentLink([a, b], ComponentID(name), using=fn_sum2))
     else:
@@ -327,7 +335,10 @@ def build_data(W, di, desc):
             spec = ["f", spec[1], spec[2]]
         if first:
             # the first component fixes the shape
-            d.add_component(values(spec[0] if spec[0] != "u" else "f", spec[2], shape), spec[1])
+            if spec[0] == "C":
+                d.add_component(values("c", spec[2], shape), spec[1])
+            else:
+                d.add_component(values(spec[0] if spec[0] != "u" else "f", spec[2], shape), spec[1])
             first = False
         else:
             add_component(W, d, di, spec)
@@ -636,7 +647,11 @@ def snapshot(dc, full_access=False):
         comps = []
         for cid in d.components:
             c = d.get_component(cid)
-            comps.append([tok(cid.label), comp_kind(c), tok(getattr(c, "units", None) or ""), safe_get(d, cid)])
+            row = [tok(cid.label), comp_kind(c), tok(getattr(c, "units", None) or ""), safe_get(d, cid)]
+            if isinstance(c, CategoricalComponent):
+                row.append(["cats"] + [tok(str(x)) for x in np.asarray(c.categories).tolist()])
+                row.append(["codes"] + [numtok(float(x)) for x in np.asarray(c.codes, dtype=float).ravel()])
+            comps.append(row)
         coords = "N" if d.coords is None else type(d.coords).__name__
         subsets = []
         for s in d.subsets:
